@@ -12,6 +12,18 @@ All strategies return plain nested lists (JSON values). Families:
 from hypothesis import strategies as st
 
 
+def weighted(draw, options):
+    """Draw from one of the (weight, strategy) options with the given integer weights
+    (st.one_of was measured to over-weight its first/simplest branch)."""
+    total = sum(w for w, _ in options)
+    r = draw(st.integers(0, total - 1))
+    for w, strat in options:
+        if r < w:
+            return draw(strat)
+        r -= w
+    raise AssertionError
+
+
 def generic_float(max_abs=1e3, min_abs=1e-3):
     return st.one_of(
         st.just(0.0),
@@ -41,14 +53,9 @@ def noise_matrix(draw, n, p, exact):
     if exact:
         flat = draw(st.lists(st.integers(-2, 2), min_size=n * p, max_size=n * p))
         return [[float(flat[i * p + j]) for j in range(p)] for i in range(n)]
-    flat = draw(
-        st.lists(
-            st.floats(-1.0, 1.0, allow_nan=False, width=64),
-            min_size=n * p,
-            max_size=n * p,
-        )
-    )
-    return [[float(flat[i * p + j]) for j in range(p)] for i in range(n)]
+    # micro-units: by construction in {0} U +-[1e-6, 1], shrinks to simple numbers
+    flat = draw(st.lists(st.integers(-10**6, 10**6), min_size=n * p, max_size=n * p))
+    return [[flat[i * p + j] / 1e6 for j in range(p)] for i in range(n)]
 
 
 @st.composite
